@@ -82,6 +82,10 @@ func zzNewSyncEnv(ctx context.Context, K, stored, getterErrs int, gates bool) *z
 				out = 2
 			case u.ID >= zzForeign:
 				out = 1 + zz.Choice("verdict.foreign", 2)
+			case adjacent && zz.Param("SOFTADJ", 0) == 1:
+				// a header type may be unable to vouch even for an adjacent header (soft failure): the
+				// bifurcation then runs out of candidates
+				out = zz.Choice("verdict.adjacent", 2)
 			case adjacent:
 				out = 0
 			case zz.Param("NOSOFT", 0) == 1:
